@@ -353,7 +353,7 @@ var fileNames = []string{"", "policy.cedar", "dir/ä ö.cedar", "a:1:1", "<input
 // TestStream: oracle (i) over generated (document, schedule) pairs, plus oracle (iii) on the same valid documents.
 func TestStream(t *testing.T) {
 	ev.SetChecks(ev.Scale(3000, 300000))
-	rapid.Check(t, func(rt *rapid.T) {
+	ev.Check(t, func(rt *rapid.T) {
 		s := genSched(rt)
 		b := genDoc(rt, &s, docOpts{mutate: rapid.IntRange(0, 9).Draw(rt, "mutate") < 2})
 		c := caseOf(&b, s, fileNames[rapid.IntRange(0, len(fileNames)-1).Draw(rt, "fname")])
@@ -439,7 +439,7 @@ func head(xs []int, n int) []int {
 // TestFaultRandom: oracle (ii) at random positions of documents of any size, random schedules (incl. iotest readers).
 func TestFaultRandom(t *testing.T) {
 	ev.SetChecks(ev.Scale(1500, 150000))
-	rapid.Check(t, func(rt *rapid.T) {
+	ev.Check(t, func(rt *rapid.T) {
 		s := genSched(rt)
 		b := genDoc(rt, &s, docOpts{})
 		c := caseOf(&b, s, "")
@@ -611,6 +611,9 @@ func TestReplay(t *testing.T) {
 	}
 	if err != nil {
 		t.Fatal(err)
+	}
+	if ev.ReplayFuzz(t, rf, fuzzProps, nil) {
+		return
 	}
 	var c Case
 	if err := json.Unmarshal(rf.Case, &c); err != nil {
